@@ -289,30 +289,25 @@ def build_content_rule(ctx, report, rule="BUILD"):
                              "build() does not give the record a clone of the builder's pairs: content = %s" % short(c, 160), fn=f.path, sp=s.sp, config=cfg)
     if not found:
         report.violate(rule, "build/content", "build() constructs no record", fn=f.path, sp=f.span, config=cfg)
-    # id = rlp("v4") and the signer's public key are added
-    evs = an.events(1, True)
-    added = []
-    for bb in sorted(evs):
-        for ev in evs[bb]:
-            if ev["kind"] == "mutcall" and ev["term"].callee and ev["term"].callee.local:
-                added.append((ev["term"].callee.name, bb, ev["term"]))
-    names = [a[0] for a in added]
-    ok = names.count("add_value_rlp") + names.count("add_value") >= 1 and "add_public_key" in names
+    # id = rlp("v4") and the signer's public key are added (on build() with its helpers spliced in)
+    from rules.c05 import build_facts
+    from rules.typestate import is_pubkey_method
+    bf = build_facts(ctx)
+    ws = bf.get("writes", []) if bf.get("fn") is not None else []
+    ok = True
     idok = False
-    for nm, bb, t in added:
-        if nm in ("add_value_rlp", "add_value"):
-            k = api.const_key(an.operand_expr(t.args[1], bb, len(f.blocks[bb].stmts)))
-            if k == b"id":
-                idok = True
-    pk = ctx.facts.fn("builder::Builder::<K>::add_public_key")
     pkok = False
-    if pk is not None:
-        report.analysed_fns.add(pk.path)
-        pan = ctx.an(pk)
-        for b2, t2 in pk.calls():
-            if t2.callee and t2.callee.name == "add_value" and t2.callee.local:
-                a = [strip(pan.operand_expr(x, b2.idx, len(b2.stmts))) for x in t2.args]
-                pkok = a[1].k == "call" and a[1].a[0].name == "enr_key" and a[2].k == "call" and a[2].a[0].name == "encode" and (a[2].a[0].trait or "").endswith("EnrPublicKey")
+    for w in ws:
+        if w["kind"] != "insert":
+            continue
+        if w.get("key") == b"id":
+            v = w["value"]
+            # the value is rlp(self.id bytes) and build() insists on id == "v4" (checked by ERRKIND / validator for other paths)
+            idok = v.get("kind") == "rlp"
+        if w.get("pubkey_of") is not None:
+            v = w["value"]
+            pkok = v.get("kind") == "rlp" and is_pubkey_method(v.get("value"), "encode") is not None and v.get("ty") in ("[u8]", "&[u8]")
+    names = [w["what"].split("::")[-1] for w in ws]
     report.check(rule, "build/id-and-key", ok and idok and pkok, "build() adds id and the signer's public key (enr_key() -> encode() as bytes) to the builder's pairs",
                  "build() does not add both `id` and the signer's public key entry (calls: %s)" % names, fn=f.path, sp=f.span, config=cfg)
 
